@@ -72,7 +72,9 @@ theorem gaussian_cap_eq (c free : Int) : gaussian_cap c free = capRequest c free
 /-- `uniform_fill` returns zeros without drawing exactly when the model does -/
 theorem uniform_early_return_eq (count free : Nat) :
     uniform_early_return count free = true ↔ (count = 0 ∨ free = 0) := by
-  simp only [uniform_early_return, Bool.or_eq_true, beq_iff_eq] <;> omega
+  simp only [uniform_early_return, Bool.or_eq_true, Bool.and_eq_true, Bool.not_eq_true', Bool.not_eq_eq_eq_not, Bool.not_not,
+    Bool.not_true, Bool.not_false, Bool.and_eq_false_imp, Bool.or_eq_false_iff, beq_iff_eq, bne_iff_ne, ne_eq,
+    beq_eq_false_iff_ne, bne_eq_false_iff_eq, decide_eq_true_eq, decide_eq_false_iff_not] <;> omega
 
 /-! ## half split geometry -/
 
